@@ -101,6 +101,12 @@ func afterShutdown(c *rig.Ctx) {
 		defer os.Remove(pq)
 		defer os.Remove(pl)
 		video := i%4 >= 2
+		okQ, _ := emu.Screen(emu.Scenario{ROM: quiet.ROM, Frames: 3})
+		okL, _ := emu.Screen(emu.Scenario{ROM: loud.ROM, Frames: 6})
+		if !okQ || !okL {
+			c.Count("after_shutdown_programs_screened_out", 1)
+			return
+		}
 		first := emu.Run(emu.Scenario{ROM: quiet.ROM, Frames: 2, Video: video}, pq)
 		for k := 0; k < 1+int(i%3); k++ {
 			emu.Run(emu.Scenario{ROM: loud.ROM, Frames: 2 + r.Intn(3), Video: k%2 == 0}, pl)
